@@ -121,6 +121,15 @@ def run(tier, v, wd, replay=None):
     v.add_tlc(r)
     if r.violated:
         raise vlib.Infra("UdpEndpointPool.tla violates %s in the model (gen)" % r.violated)
+    # every history of up to four events over one source (ticks of 1, FailT, NatT and beyond NatT: to the very instant an
+    # entry expires, where the janitor has not yet swept it), exhaustively
+    bfile = os.path.join(wd.path, "c13ep_bfs.ndjson")
+    r = vlib.tlc(wd, "UdpEndpointPool", "UdpEndpointPool_bfs.cfg", emit_to=bfile, workers=4, timeout=1500)
+    v.add_tlc(r)
+    if r.violated:
+        raise vlib.Infra("UdpEndpointPool.tla violates %s in the model (bfs)" % r.violated)
+    with open(efile, "a") as f:
+        f.write(open(bfile).read())
     run_vectors(v, wd, repo, "./control/", "TestVerifC13Endpoints", efile, tags="verif,dae_stub_ebpf", timeout=900, outname="out-ep.json")
     v.assumptions += ["schedules are forced at the verif yield points of udp_task_pool.go; steps between two yield points are atomic in the model",
                       "replay runs with GOMAXPROCS(1) so that sync.Pool behaves as the modelled private slot + shared chain"]
